@@ -278,8 +278,9 @@ impl GateSim {
     }
 
     /// One iteration of the real syncer loop: the clock moves past its sleep, the thread runs until
-    /// it sleeps again. Returns false when no real syncer thread is parked.
-    pub fn syncer_tick(&self) -> bool {
+    /// it sleeps again. `None`: no real syncer thread is parked (the caller sends FlushPoll itself);
+    /// `Some(false)`: the syncer thread left its loop although the store is open.
+    pub fn syncer_tick(&self) -> Option<bool> {
         let mut g = self.lock();
         let start = std::time::Instant::now();
         while g.syncer_active && !g.syncer_parked {
@@ -290,7 +291,7 @@ impl GateSim {
             }
         }
         if !g.syncer_active {
-            return false;
+            return None;
         }
         let ns = g.syncer_sleep_ns;
         let before = g.syncer_iterations;
@@ -299,14 +300,22 @@ impl GateSim {
         let mut g = self.lock();
         g.syncer_grant = true;
         self.cv.notify_all();
+        let mut waited = 0u32;
         while g.syncer_active && (g.syncer_iterations == before || !g.syncer_parked) {
-            let (ng, _) = self.cv.wait_timeout(g, Duration::from_millis(5)).unwrap_or_else(|e| e.into_inner());
+            let (ng, _) = self.cv.wait_timeout(g, Duration::from_millis(2)).unwrap_or_else(|e| e.into_inner());
             g = ng;
+            waited += 1;
+            if waited % 10 == 0 && g.syncer_iterations != before && !syncer_thread_exists() {
+                // it consumed the grant and is gone: its poll list became empty
+                g.syncer_active = false;
+                g.syncer_parked = false;
+                return Some(false);
+            }
             if start.elapsed() > STUCK {
-                panic!("simulation stuck: the syncer thread does not come back to its sleep (active {} parked {} grant {} stop {} iterations {} before {} sleep_ns {}; threads: {})", g.syncer_active, g.syncer_parked, g.syncer_grant, g.syncer_stop, g.syncer_iterations, before, g.syncer_sleep_ns, format!("{} sites start={:?} sleep={:?} passthrough={} {}", g.syncer_note, g.sites.get("syncer:start"), g.sites.get("syncer:sleep"), g.passthrough, thread_states()));
+                panic!("simulation stuck: the syncer thread does not come back to its sleep (iterations {} before {}; {})", g.syncer_iterations, before, thread_states());
             }
         }
-        true
+        Some(true)
     }
 
     /// Sets a writer's queue length from the channel itself (after a real syncer tick).
@@ -882,4 +891,17 @@ pub fn thread_states() -> String {
         }
     }
     out.join(" ")
+}
+
+/// A thread named like the store's syncer thread exists in this process.
+pub fn syncer_thread_exists() -> bool {
+    let Ok(rd) = std::fs::read_dir("/proc/self/task") else { return true };
+    for e in rd.flatten() {
+        if let Ok(comm) = std::fs::read_to_string(e.path().join("comm")) {
+            if comm.trim().starts_with("writer-pool-syn") {
+                return true;
+            }
+        }
+    }
+    false
 }
